@@ -28,6 +28,8 @@ pub enum PlanDesc {
     DocRow { which: u8 },
     /// a service class written in the service object format
     Service,
+    /// `n` same-class instances under one Folder (long columns and referent arrays)
+    Wide { n: usize },
     /// two instances of an unknown class carrying values a, b of the alphabet of `ty` (every wire type's layout)
     TypePair { ty: String, a: usize, b: usize },
 }
@@ -85,6 +87,11 @@ pub fn plan_of(d: &PlanDesc) -> Plan {
                 _ => Variant::Content(Content::from_uri("rbxassetid://5")),
             };
             Plan { nodes: vec![PNode { class: "ZzUnknownThing".into(), name: "row".into(), parent: None, props: vec![("V".into(), PVal::V(v))] }], roots: RootSel::Nodes(vec![]) }
+        }
+        PlanDesc::Wide { n } => {
+            let mut p = crate::codec::build_plan(&crate::codec::CaseDesc::Wide { n: *n }, Codec::Binary);
+            p.roots = RootSel::Nodes(vec![]);
+            p
         }
         PlanDesc::TypePair { ty, a, b } => {
             let t = crate::vals::binary_types().into_iter().find(|t| crate::vals::type_name(*t) == *ty).expect("type");
@@ -376,6 +383,20 @@ pub fn cases(tier: Tier) -> Vec<Case04> {
             let mut e = enc::base_encoding(&plan_of(&pd));
             e.switches_impl = imp;
             out.push(Case04 { plan: pd, enc: e, dim: if imp { "doc-row-impl-reading".into() } else { "doc-row-document-reading".into() } });
+        }
+    }
+    // long columns: more instances than fit one byte / one small block, dense and reversed numbering
+    for n in [255usize, 256, 257, 1000] {
+        let pd = PlanDesc::Wide { n };
+        let plan = plan_of(&pd);
+        for (k, comp) in [Comp::None, Comp::Lz4, Comp::Zstd, Comp::ZstdChecksumBlocks].iter().enumerate() {
+            let mut e = enc::base_encoding(&plan);
+            e.comp = vec![*comp];
+            if k % 2 == 1 {
+                let total = plan.nodes.len() as i32;
+                e.referents = (0..total).map(|i| 5 + (total - 1 - i) * 2).collect();
+            }
+            out.push(Case04 { plan: pd.clone(), enc: e, dim: "wide-column".into() });
         }
     }
     // every wire type's layout, as the document describes it, for every alphabet value (in a two-instance column)
